@@ -204,4 +204,9 @@ pub struct ReplayFile {
     pub actions: Vec<Step>,
     pub violation: Option<Violation>,
     pub note: String,
+    /// which build of the simulator produced the file: "default-features" or "self_remove_proposal"
+    #[serde(default)]
+    pub build: String,
 }
+
+pub const BUILD: &str = if cfg!(feature = "self_remove") { "self_remove_proposal" } else { "default-features" };
